@@ -276,8 +276,20 @@ def _probe_inside(fn, name, base):
         lit = [p for p in parts if isinstance(p, ast.Constant) and isinstance(p.value, (int, float))]
         oth = [p for p in parts if not isinstance(p, ast.Constant)]
         okc = len(lit) == 1 and 0 < lit[0].value <= 0.5 and len(oth) == 1 and U(oth[0]) == f"self.bounds.width[{idx}]"
-    okf = (U(flip.test) == f"{base}[{idx}] + {h} > self.bounds.upper[{idx}]"
-           and [U(x) for x in flip.body] == [f"{h} = -{h}"] and not flip.orelse)
+    # the flip test, as a value: base[idx] + h > upper[idx] (any spelling: operands in either order, the coordinate held in a local,
+    # `upper < ...`) - compared in normal form after inlining temporaries
+    okt = False
+    try:
+        rz = Resolver(fn)
+        tt = rz.term(flip.test, flip, keep=(h, base, idx))
+        if isinstance(tt, ast.Compare) and len(tt.ops) == 1 and isinstance(tt.ops[0], (ast.Gt, ast.Lt)):
+            big, small = (tt.left, tt.comparators[0]) if isinstance(tt.ops[0], ast.Gt) else (tt.comparators[0], tt.left)
+            ABS = [(f"{base}[{idx}]", "T_I"), (f"self.bounds.upper[{idx}]", "UP_I")]
+            dv = anf_of(abstract(big, ABS)[0]) - anf_of(abstract(small, ABS)[0])
+            okt = dv.eq(R.sym("T_I") + R.sym(h) - R.sym("UP_I"))
+    except Unsupported:
+        okt = False
+    okf = (okt and [U(x) for x in flip.body] == [f"{h} = -{h}"] and not flip.orelse)
     later = []
     if okc and okf and not later:
         return True, "inward step of at most half the box width"
